@@ -57,7 +57,7 @@ def _history():
         'await_after': st.sampled_from([0, 0, 0, 2, 30]), 'shared_param': st.sampled_from([False, False, True]),
         'stock': st.sampled_from([False, False, True]),
         # the validator is a callable OBJECT that is falsy (it has a __len__ and is 'empty'): still the validator supplied
-        'falsy': st.sampled_from([False, False, False, True])})
+        'falsy': st.sampled_from([False, False, False, False, True, 'lambda', 'object', 'future', 'partial', 'wrapped'])})
     data = st.one_of(
         st.fixed_dictionaries({'op': st.just('data'), 'name': nm, 'mode': st.sampled_from(['await', 'task', 'lp'])}),
         st.fixed_dictionaries({'op': st.just('data'), 'of': st.integers(0, 7), 'ext': st.lists(st.sampled_from(ALPHA[:2]), max_size=1),
@@ -404,7 +404,7 @@ def _run(sim, fe, ops, r):
                             # (and only with a quick validator: in the legacy front-end validation starts when the result is awaited)
                             await_after=(op.get('await_after', 0) if op.get('await_after', 0) < op['life'] - 2
                                          and op['vlat'] in ('0', '1ms') else 0) / 1000,
-                            shared_param=op.get('shared_param', False), falsy_validator=bool(op.get('falsy')),
+                            shared_param=op.get('shared_param', False), falsy_validator=op.get('falsy') or False,
                             # an accepting validator without latency may be the stock object the library ships
                             validator='stock' if op.get('stock') and op['vlat'] == '0' and op['verdict'] else 'default')
             if h.express_error is not None:
